@@ -1,6 +1,7 @@
 /- ymdriver: executable side of the models (trace validators / model runners). No Mathlib. -/
 import Driver.Atomic
 import Driver.Unique
+import Driver.FiberSync
 import Driver.Pipeline
 import Driver.Pool
 import Driver.When
@@ -17,6 +18,7 @@ def main (args : List String) : IO UInt32 := do
   | ["pipe"] => Yaclib.Driver.Pipe.main false; return 0
   | ["pipe-spec"] => Yaclib.Driver.Pipe.main true; return 0
   | ["validate", "unique"] => Yaclib.Driver.validate Yaclib.Driver.UniqueD.model
+  | ["validate", "fibersync"] => Yaclib.Driver.validate Yaclib.Driver.FiberSyncD.model
   | ["validate", "pool"] => Yaclib.Driver.validate Yaclib.Driver.PoolD.model
   | ["validate", "shared"] => Yaclib.Driver.validate Yaclib.Driver.SharedD.model
   | ["validate", "strand"] => Yaclib.Driver.validate Yaclib.Driver.StrandD.model
